@@ -120,6 +120,7 @@ struct Interp
          return m;
       }
       if (k == "rmroute") {MessageRef m = GetMessageFromPool(PR_COMMAND_REMOVEPARAMETERS); (void) m()->AddString(PR_NAME_KEYS, "\\!SnKy"); return m;}
+      if (k == "rmroutefilters2") {MessageRef m = GetMessageFromPool(PR_COMMAND_REMOVEPARAMETERS); (void) m()->AddString(PR_NAME_KEYS, "\\!SnFl"); (void) m()->AddString(PR_NAME_KEYS, "nickname"); return m;}
       if (k == "rmroutefilters") {MessageRef m = GetMessageFromPool(PR_COMMAND_REMOVEPARAMETERS); (void) m()->AddString(PR_NAME_KEYS, "\\!SnFl"); return m;}
       if ((k == "insord")&&(n >= 4))
       {
